@@ -162,13 +162,14 @@ def colsels_exhaustive(m, rng, n_slices=20, full_grid=False):
 
 
 # Python integers of any size are valid slice bounds and steps (they clamp); values around the 32- and 64-bit limits
-HUGE = [2 ** 31 - 1, 2 ** 31, 2 ** 31 + 1, 2 ** 62, 2 ** 63 - 1]
+HUGE = [2 ** 31 - 1, 2 ** 31, 2 ** 31 + 1, 2 ** 62, 2 ** 63 - 1,
+        46341, 65536, 100003, 2 ** 20 + 1]      # moderately large: products of two of them leave the 32-bit range
 
 
-def _maybe_huge(sl, rng, p=0.04):
+def _maybe_huge(sl, rng, p=0.05):
     if rng.random() < p:
-        f = rng.choice(["a", "b", "k"])
-        sl[f] = rng.choice(HUGE) * rng.choice([1, -1])
+        for f in rng.sample(["a", "b", "k"], rng.choice([1, 1, 2])):
+            sl[f] = rng.choice(HUGE) * rng.choice([1, -1])
     return sl
 
 
